@@ -63,7 +63,7 @@ def event(theta, est, method, alphas, nan, cid, ids, dtype, seed):
     rnd = np.random.RandomState(seed + cid)
     e = {"id": next(ids), "cid": cid, "op": "bootci", "exc": "", "theta": theta, "est": est,
          "method": method, "alphas": alphas, "dtype": dtype, "shape_ok": True,
-         "out": {}, "outq": {}, "v_nan": {}, "v_perm": {}, "v_aff": {}, "v_stack": {}, "v_small": {}, "aff": [2, 1]}
+         "out": {}, "outq": {}, "v_nan": {}, "v_perm": {}, "v_aff": {}, "v_stack": {}, "v_stack2": {}, "v_small": {}, "aff": [2, 1]}
     try:
         th = to_arr(theta, nan, dtype)
         thf = th.astype(float)
@@ -74,6 +74,13 @@ def event(theta, est, method, alphas, nan, cid, ids, dtype, seed):
         other = np.asarray(rnd.randint(0, 4, size=len(th)), dtype=float)
         stack = np.stack([other, thf], axis=1)                       # (N, 2): our column is no. 1
         est_stack = np.array([float(other.mean().round()), float(est)])
+        # a (2, 3)-shaped metric: ours at [1, 2], its affine image at [0, 1], unrelated data elsewhere;
+        # the point estimate is handed over column-major or as a transposed view
+        st2 = np.asarray(rnd.randint(0, 4, size=(len(th), 2, 3)), dtype=float)
+        st2[:, 1, 2], st2[:, 0, 1] = thf, k * thf + c
+        est2 = np.asarray(rnd.randint(0, 4, size=(2, 3)), dtype=float)
+        est2[1, 2], est2[0, 1] = est, k * est + c
+        est2 = np.asfortranarray(est2) if cid % 2 else np.ascontiguousarray(est2.T).T
         ok = True
         for a in alphas:
             al = a / 1000.0
@@ -94,6 +101,10 @@ def event(theta, est, method, alphas, nan, cid, ids, dtype, seed):
             r5 = np.asarray(bootstrap_ci(stack, est_stack, al, method=method))
             ok = ok and r5.shape == (2, 2)
             e["v_stack"][str(a)] = [fx6(r5[1][0]), fx6(r5[1][1])] if r5.shape == (2, 2) else [LIM, LIM]
+            r9 = np.asarray(bootstrap_ci(st2, est2, al, method=method))
+            ok = ok and r9.shape == (2, 3, 2)
+            e["v_stack2"][str(a)] = [[fx6(r9[1, 2, 0]), fx6(r9[1, 2, 1])], [fx6(r9[0, 1, 0]), fx6(r9[0, 1, 1])]] \
+                if r9.shape == (2, 3, 2) else [[LIM, LIM], [LIM, LIM]]
         if method == "quantile":
             # array-valued alpha: shape metric_shape + alpha_shape + (2,), same numbers
             al = np.array([a / 1000.0 for a in alphas])
@@ -108,6 +119,26 @@ def event(theta, est, method, alphas, nan, cid, ids, dtype, seed):
     except Exception as ex:  # noqa
         e["exc"] = f"{type(ex).__name__}: {ex}"[:200]
     return e
+
+
+def pole_events(ids):
+    """'bca' beyond the pole of the acceleration term: ten replicates at +-1, one outlier at -+D, the
+    estimate 0 in the opposite tail, tiny alpha (by table key)"""
+    from score_analysis.utils import bootstrap_ci
+    evs = []
+    for key, alpha in (("1e-9", 1e-9), ("1e-12", 1e-12), ("1e-15", 1e-15)):
+        for D in (13, 14):
+            for sign in (1, -1):
+                theta = [sign] * 10 + [-sign * D]
+                e = {"id": next(ids), "cid": 0, "op": "bootci_pole", "exc": "", "theta": theta, "est": 0,
+                     "key": key, "out": [LIM, LIM]}
+                try:
+                    r = np.asarray(bootstrap_ci(np.array(theta, dtype=float), 0.0, alpha, method="bca"))
+                    e["out"] = [fx6(r[0]), fx6(r[1])]
+                except Exception as ex:  # noqa
+                    e["exc"] = f"{type(ex).__name__}: {ex}"[:200]
+                evs.append(e)
+    return evs
 
 
 def run(ctx: core.Ctx):
@@ -147,6 +178,7 @@ def run(ctx: core.Ctx):
             except Exception as ex:  # noqa
                 e["exc"] = f"{type(ex).__name__}: {ex}"[:200]
             evs.append(e)
+    evs += pole_events(ids)
     ctx.sample(evs[len(evs) // 2])
     ctx.judge("Trace_C13", evs, cases=cases, batch=800, env_extra={"TABLES_FILE": str(tables)})
     ctx.rule = ("every replicate vector up to MaxLen over the value set and NaN (at least one finite), "
@@ -166,5 +198,6 @@ def replay(ctx: core.Ctx, body):
     ids = iter(range(1, 10**9))
     evs = [event(th, est, m, [10, 50, 100, 200, 500, 900], -99999, 0, ids, dt, ctx.seed)
            for m in METHODS for est in (-1, 1, 2, 4) for dt in ("int", "float")]
+    evs += pole_events(ids)
     ctx.judge("Trace_C13", evs, cases=[th], env_extra={"TABLES_FILE": str(tables)})
     return ctx.finish()
